@@ -50,6 +50,18 @@ int ini_parse(const char *filename, ini_handler handler, void *user)
     if (f->absent & 1) return -1;                          /* file missing / unreadable */
     for (int k = 0; k < NOPT; k++) {
         if (k >= f->nopt) break;
+#ifdef OUTPUT_TEMPLATE    /* values of the output option spelled from selectors: registered/unknown name, optional ':' + up to 2 bytes */
+        if (f->key[k] == 3) {
+            static const char *const ON[9] = { "devlog", "devnull", "devtty", "file", "socket", "stderr", "stdout", "noop", "nosuch" };
+            char t[16]; size_t p = 0;
+            const char *nm = ON[(unsigned char)f->val[k][0] % 9];
+            for (size_t i = 0; nm[i] != '\0'; i++) t[p++] = nm[i];
+            if (f->val[k][1] & 1) { t[p++] = ':'; for (int i = 2; i < 4 && f->val[k][i] != '\0'; i++) t[p++] = f->val[k][i]; }
+            t[p] = '\0';
+            handler(user, "snoopy", "output", t);
+            continue;
+        }
+#endif
         handler(user, "snoopy", KEYS[f->key[k]], f->val[k]);
     }
     return (f->rc_err & 1) ? 3 : 0;                        /* a syntax error elsewhere in the file, or clean */
@@ -65,7 +77,7 @@ void v_interference(void) { }
 #endif
 
 /* what a call observes of its configuration */
-struct obs { int el, fac, lev; size_t dl, ll; char mf[96], fc[VLEN + 2], out[12], oa[VLEN + 2], id[12]; };
+struct obs { int el, fac, lev; size_t dl, ll; char mf[96], fc[VLEN + 2], out[12], oa[VLEN + 4], id[12]; };
 static void scpy(char *d, size_t cap, const char *s) { size_t i = 0; for (; i + 1 < cap && s[i] != '\0'; i++) d[i] = s[i]; d[i] = '\0'; }
 static void observe(struct obs *o)
 {
